@@ -28,6 +28,24 @@ def rand_program(rng, names, maxsize=40):
     return [rand_prog_item(rng, names, rng.randrange(1, 5), rng.randrange(1, maxsize)) for _ in range(n)]
 
 
+def rand_family_program(rng, names, maxlen=25):
+    """a flat program that stays inside ONE instruction family (OUTPUT.*, GRAPH.*, NAME.*, ...) with the literals its
+    operands need in between: histories of one subsystem (flush then write, define then redefine, fill then overflow)"""
+    fams = sorted(set(n.split(".")[0] for n in names if "." in n))
+    fam = rng.choice(fams)
+    own = [n for n in names if n.startswith(fam + ".")]
+    if fam in ("INPUT", "OUTPUT"):
+        own = [n for n in names if n.startswith("INPUT.") or n.startswith("OUTPUT.")]
+    lits = [lambda: Z(rng.randrange(-2, 6)), lambda: Z(rng.randrange(-2, 6)), lambda: B(rng.random() < 0.5), lambda: F(fbits(rng.randrange(-4, 9) / 2.0)),
+            lambda: IV([rng.randrange(0, 6) for _ in range(rng.randrange(0, 4))]), lambda: BV([rng.random() < 0.5 for _ in range(rng.randrange(0, 4))]),
+            lambda: FV([fbits(float(rng.randrange(0, 4))) for _ in range(rng.randrange(0, 3))]), lambda: N(rng.choice(["A", "B", "X"])),
+            lambda: L(Z(1), I(rng.choice(own)))]
+    out = []
+    for _ in range(rng.randrange(4, maxlen + 1)):
+        out.append(I(rng.choice(own)) if rng.random() < 0.6 else rng.choice(lits)())
+    return [L(*out)] if rng.random() < 0.5 else out
+
+
 DIVERGING = ["( EXEC.Y NOOP )", "( EXEC.Y ( 1 INTEGER.+ ) )", "( 0 EXEC.Y ( 1 INTEGER.+ INTEGER.DUP ) )",
              "( EXEC.Y ( TRUE BOOLEAN.DUP ) )", "( 1 EXEC.Y ( INTEGER.DUP INTEGER.DUP INTEGER.DUP ) )"]
 # structure-doubling programs: memory doubles every few steps (C15 covers that envelope); only with small step limits
